@@ -1573,6 +1573,15 @@ where
             )
             .await?;
 
+        let skipped = resp.skipped;
+
+        if skipped {
+            // Nothing was sent: the changes / events that made the subscription
+            // reportable did not concern it. They count as seen, but the subscriber
+            // has not heard from us, so the liveness clock must keep running.
+            rctx.set_unsent();
+        }
+
         if !sub_valid {
             warn!(
                 "Subscription {:?} removed during reporting",
@@ -1987,6 +1996,8 @@ struct ReportDataResponder<'a, 'b, 'c, const NE: usize, C> {
     reserve: usize,
     /// The buffer position at which the reply being built carries no payload yet
     fresh_tail: usize,
+    /// Set by `respond` when the report turned out empty and was therefore not sent at all
+    skipped: bool,
 }
 
 impl<'a, 'b, 'c, const NE: usize, C> ReportDataResponder<'a, 'b, 'c, NE, C>
@@ -2013,6 +2024,7 @@ where
             events,
             reserve: 0,
             fresh_tail: 0,
+            skipped: false,
         }
     }
 
@@ -2057,6 +2069,8 @@ where
                 .await
         } else {
             debug!("No data to report, skipping sending ReportData response");
+
+            self.skipped = true;
 
             Ok(true)
         }
